@@ -35,7 +35,10 @@ def run_case(case):
                         cp['oracle'] += diagram.oracle_roi(run, mi, d) if roi else diagram.oracle_full(run, mi, d)
                     except diagram.ParseError as e:
                         cp['oracle'].append(('unparseable', {'error': str(e)}, 'C16.parse'))
-                cp['cur'] = [diagram.name_of(p) for p in diagram.flatten_state(model.state)]
+                # open finding (Locked hierarchical graph machines): after a compound add_states the live markup carries
+                # stale entries the model does not mirror; correspondence is not compared there (the oracle judges)
+                cp['skip_corr'] = bool(run.phantom)
+                cp['cur'] = [diagram.name_of(p) for p in run.cur(mi)]
                 cps.append(cp)
 
     checkpoint(-1)
@@ -59,6 +62,8 @@ def judge(case, cps, answers):
             out.append(Failure('monitor', what, case, det, signature=sig))
         if ans == 'bad-input':
             raise common.MachineryError('driver rejected a c16 request: %r' % (cp['req'][:60],))
+        if cp.get('skip_corr'):
+            continue
         if cp['roi']:
             # the root `[*] -->` marker of the ROI view is not constrained by the property
             # (Enum states: `roi_state == machine.initial` compares an Enum with a name)
@@ -160,7 +165,9 @@ def account(cases):
         for o, v in case['opts'].items():
             if v:
                 st['options'][o] = st['options'].get(o, 0) + 1
-        for o, v in (('enum_states', case['enum']), ('queued', case.get('queued')), ('retrigger_callbacks', case.get('retrig'))):
+        for o, v in (('enum_states', case['enum']), ('queued', case.get('queued')), ('retrigger_callbacks', case.get('retrig')),
+                     ('locked_class', case.get('locked')), ('custom_model_attribute', case.get('model_attr') == 'custom'),
+                     ('custom_attribute_and_own_state', case.get('model_attr') == 'custom' and case.get('own_state'))):
             if v:
                 st['options'][o] = st['options'].get(o, 0) + 1
         if any(s[0] == 'begin' and k + 1 < len(ss) and ss[k + 1][0] == 'begin'
@@ -189,11 +196,16 @@ def shrink_steps(case):
         c = copy.deepcopy(case)
         del c['retrig'][cb]
         yield c
-    if case.get('queued'):
+    for key in ('queued', 'locked', 'own_state'):
+        if case.get(key):
+            c = copy.deepcopy(case)
+            c[key] = False
+            yield c
+    if case.get('model_attr') == 'custom':
         c = copy.deepcopy(case)
-        c['queued'] = False
+        c['model_attr'] = 'default'
         yield c
-    if case['n_models'] > 1:
+    if case['n_models'] > 1 and not any(op[0] == 'add_model' for op in case['ops']):
         c = copy.deepcopy(case)
         c['n_models'] = 1
         c['ops'] = [op for op in c['ops'] if op[0] != 'trigger' or op[1] == 0]
@@ -243,7 +255,7 @@ class C16(runner.Check):
     level = 'proof'
     theorems = ('TM.C16_states_once_nested', 'TM.C16_states_once_flat', 'TM.C16_edges_exact',
                 'TM.C16_edges_present', 'TM.C16_elements_cover', 'TM.C16_final_initial_marked',
-                'TM.C16_final_marked_flat', 'TM.C16_activity', 'TM.C16_activity_current', 'TM.C16_activity_previous',
+                'TM.C16_final_marked_flat', 'TM.C16_activity', 'TM.C16_activity_current', 'TM.C16_activity_previous', 'TM.C16_activity_attribute',
                 'TM.C16_roi', 'TM.C16_roi_defined', 'TM.C16_regenerated')
     manifest = dict(
         level='proof', design='DESIGN.md 4/C16 + design_notes/C16.md',
@@ -269,7 +281,9 @@ class C16(runner.Check):
             'GraphMachine / HierarchicalGraphMachine configurations on the Mermaid engine with labels, final flags, '
             'on_enter/on_exit, conditions/unless, internal / reflexive / wildcard / multi-source transitions at the root '
             'and inside compound states, show_conditions / show_auto_transitions / show_state_attributes / '
-            'auto_transitions on and off, queued and unqueued, 1-2 external model objects, on_enter / transition-after '
+            'auto_transitions on and off, queued and unqueued, plain and Locked graph classes, default and custom '
+            'model_attribute (models with and without an unrelated own `state` attribute), 1-2 external model objects plus '
+            'models registered later with add_model, on_enter / transition-after '
             'callbacks that fire further events on the same model (nested events), histories of 2-9 operations (trigger '
             'incl. auto triggers, add_states with lists mixing compound definitions, joined parent_child names and plain '
             'states, add_transition, remove_transition); after construction and after every operation the full and '
@@ -281,7 +295,7 @@ class C16(runner.Check):
                'Mermaid-subset parser, live-machine table reader and oracle in harness/diagram.py',
                'Mermaid backend only (graphviz/pygraphviz not importable offline)')
 
-    budgets = {'quick': (16, 70, 16, 70), 'thorough': (48, 180, 48, 180)}
+    budgets = {'quick': (16, 55, 16, 55), 'thorough': (48, 180, 48, 180)}
 
     def explore(self, tier, seed):
         fc, fn, hc, hn = self.budgets['quick' if tier == 'quick' else 'thorough']
@@ -371,6 +385,9 @@ class C16(runner.Check):
             'machine is C13/C14 business); automatic = trigger name starts with "to_", which generated names never do',
             'state tags / timeouts (feature mixins) in show_state_attributes are not generated; histories stop at an '
             'operation on which the engine itself raises (other properties)',
+            'one open finding (Locked hierarchical graph machines keep the stale-markup defect of former finding 4): '
+            'classified by class + earlier compound/joined add_states + only phantom names in excess; correspondence is '
+            'skipped on those checkpoints',
             'the model follows the repaired tree only; corpus/C16/*.json (witnesses of the four former findings) run '
             'first on every run and must pass',
         ]
